@@ -12,6 +12,8 @@ import (
 	"sort"
 	"strconv"
 	"strings"
+
+	"golang.org/x/tools/go/ssa"
 )
 
 type Clause struct {
@@ -77,6 +79,8 @@ type Contract struct {
 	funcName   string
 	Sig        *types.Signature
 	funcType   string // named func type for "functype" contracts
+	viaVar     bool   // contract for calls through a package-level variable of function type (funcType = its name)
+	closure    bool   // contract of an anonymous function (written Parent__N)
 	// Uninterp: the body is never inlined nor verified; calls use the contract only
 }
 
@@ -146,6 +150,8 @@ type opaqueDecl struct {
 func newSpecDB() *SpecDB {
 	return &SpecDB{Contracts: map[string]*Contract{}, Ghosts: map[string]*GhostFunc{}, GhostVars: map[string]*GhostVar{}, Immutable: map[string]bool{}, Allocators: map[string]bool{}, ZeroInit: map[string]*zeroInit{}}
 }
+
+var closureNameRe = regexp.MustCompile(`^(.+)__(\d+)$`)
 
 var labelRe = regexp.MustCompile(`^\[([A-Za-z0-9_.,\- ]+)\]`)
 
@@ -813,9 +819,46 @@ func (db *SpecDB) resolveContracts(P *Program) {
 			}
 			sig = sg
 			c.Key = "dyncall:" + typeStr(tn.Type())
+		} else if m := closureNameRe.FindStringSubmatch(c.funcName); m != nil {
+			// `func Parent__N(params) results`: the N-th anonymous function (SSA numbering Parent$N) inside Parent
+			inner := c.funcName
+			c.funcName = m[1]
+			parent, err := c.resolveFunc(P)
+			c.funcName = inner
+			if err != nil {
+				db.Errors = append(db.Errors, fmt.Sprintf("%s:%d: %v", c.File, c.Line, err))
+				continue
+			}
+			c.Key = parent.FullName() + "$" + m[2]
+			var cf *ssa.Function
+			for _, f := range P.allFunctions() {
+				if f.String() == c.Key {
+					cf = f
+				}
+			}
+			if cf == nil {
+				db.Errors = append(db.Errors, fmt.Sprintf("%s:%d: no anonymous function %s", c.File, c.Line, c.Key))
+				continue
+			}
+			sig = cf.Signature
+			c.RecvName, c.recvExpr = "", nil
+			c.closure = true
+		} else if v := c.resolveFuncVar(P); v != nil {
+			// package-level variable of function type (e.g. `var MsgTypeURL = codectypes.MsgTypeURL`): the contract
+			// applies to calls through the variable (package-level variables are assumed not to be reassigned, T4)
+			sig = v.Type().Underlying().(*types.Signature)
+			c.Key = "varcall:" + v.Pkg().Path() + "." + v.Name()
+			c.funcType = v.Name()
+			c.viaVar = true
 		} else {
 			obj, err := c.resolveFunc(P)
 			if err != nil {
+				if tp := P.lookupPkg(c.PkgPath); tp != nil && !tp.Complete() {
+					// the package is only known through other packages' export data (an indirect dependency of this
+					// load): its scope is partial, the functions of this contract cannot be called by the loaded code
+					db.Skipped = append(db.Skipped, fmt.Sprintf("%s:%d (package %s only partially loaded)", c.File, c.Line, c.PkgPath))
+					continue
+				}
 				db.Errors = append(db.Errors, fmt.Sprintf("%s:%d: %v", c.File, c.Line, err))
 				continue
 			}
@@ -838,6 +881,24 @@ func (db *SpecDB) resolveContracts(P *Program) {
 		}
 		db.Contracts[c.Key] = c
 	}
+}
+
+func (c *Contract) resolveFuncVar(P *Program) *types.Var {
+	if c.recvExpr != nil {
+		return nil
+	}
+	o, err := P.resolveNamed(c.funcName, c.PkgPath, c.Imports)
+	if err != nil {
+		return nil
+	}
+	v, ok := o.(*types.Var)
+	if !ok || v.Pkg() == nil || v.Parent() != v.Pkg().Scope() {
+		return nil
+	}
+	if _, ok := v.Type().Underlying().(*types.Signature); !ok {
+		return nil
+	}
+	return v
 }
 
 func (c *Contract) resolveUnnamedFuncType(P *Program) (*types.Signature, error) {
